@@ -42,7 +42,7 @@ func newStats() *stats {
 		Inconcl: map[string]int64{}, Samples: map[string]json.RawMessage{}, Violations: map[string]*vio{}}
 }
 
-func (s *stats) Eval() { s.mu.Lock(); s.Evals++; s.mu.Unlock() }
+func (s *stats) Eval()             { s.mu.Lock(); s.Evals++; s.mu.Unlock() }
 func (s *stats) Count(h, b string) { s.CountN(h, b, 1) }
 func (s *stats) CountN(h, b string, n int64) {
 	s.mu.Lock()
